@@ -2,7 +2,10 @@
 //
 // Bounded-exhaustive: message pool (generated and *dynamic.Message form of each)
 // x 4 adapters x {Clone, Copy into empty / pre-populated destination} x pairing
-// {same type, generated<->dynamic, different message type, pointer to non-proto}.
+// {same type, generated<->dynamic, different message type, pointer to non-proto};
+// overlapping copies (overlap.go); and sequences of 2-3 operations of ONE adapter
+// object in which later operations read objects that earlier ones produced or
+// read, modified by their owner in between (seqs.go, seqmod.go).
 // The real adapters from inprocgrpc run on every case; the oracle is in oracle.go
 // (equality, source unchanged, behavioural disjointness by in-place mutation,
 // destination replaced, refusal with an error and never a panic).
@@ -19,8 +22,11 @@ import (
 	"verif/vlib"
 )
 
-func fingerprint(k kase, clause string) string {
-	return fmt.Sprintf("C18|%s|%s|%s|%s", k.Adapter, k.Op, k.pairing(), clause)
+func fingerprint(k kase, f finding) string {
+	if f.Class != "" {
+		return fmt.Sprintf("C18|%s|%s|%s", k.Adapter, f.Class, f.Clause)
+	}
+	return fmt.Sprintf("C18|%s|%s|%s|%s", k.Adapter, k.Op, k.pairing(), f.Clause)
 }
 
 type aggregate struct {
@@ -44,6 +50,7 @@ func inconclusive(msg string) {
 
 func main() {
 	debug.SetMemoryLimit(2 << 30)
+	debug.SetGCPercent(1000) // the live heap is a few MB; millions of short-lived messages are made
 	// everything runs on one goroutine; one P also pins per-P caches (sync.Pool
 	// free lists) that a library might use, so overlapping copies meet them
 	// the same way in every run
@@ -59,13 +66,18 @@ func main() {
 		if k.Adapter == "" || (!isNP(k.Src) && specByName[k.Src] == nil) || (k.DstFill != "" && specByName[k.DstFill] == nil) || (k.Hook != "" && specByName[k.Inner] == nil) {
 			inconclusive("replay file does not describe a C18 case")
 		}
+		for _, st := range k.Seq {
+			if (st.Op != "Clone" && st.Op != "Copy") || (st.Dst == "fill" && specByName[st.DstFill] == nil) || isNP(k.Src) {
+				inconclusive("replay file does not describe a C18 sequence")
+			}
+		}
 		o := runCase(k)
 		if o.Internal != "" {
 			inconclusive(o.Internal)
 		}
 		fmt.Printf("replay: %s (expected outcome: %s) observed: %s\n", describe(k), k.expect(), o.Observed)
 		for _, f := range o.Findings {
-			fmt.Printf("  %s: %s\n", fingerprint(k, f.Clause), f.What)
+			fmt.Printf("  %s: %s\n", fingerprint(k, f), f.What)
 		}
 		if len(o.Findings) > 0 {
 			fmt.Printf("VIOLATION property=C18 replay=%s\n", p)
@@ -81,8 +93,14 @@ func main() {
 	if pr := mutatorCheck(); len(pr) > 0 {
 		inconclusive(fmt.Sprintf("disjointness test mis-calibrated: %v", pr))
 	}
+	if pr := modCheck(); len(pr) > 0 {
+		inconclusive(fmt.Sprintf("the modifications made between the steps of a sequence are mis-calibrated: %v", pr))
+	}
+	if pr := bulkCheck(); len(pr) > 0 {
+		inconclusive(fmt.Sprintf("the fast disjointness test of the sequences is mis-calibrated: %v", pr))
+	}
 	selfCases := 0
-	for _, k := range enumerate([]string{"raw"}, thorough) {
+	self := func(k kase) {
 		selfCases++
 		o := runCase(k)
 		if o.Internal != "" {
@@ -93,32 +111,63 @@ func main() {
 				describe(k), o.Findings[0].Clause, o.Findings[0].What))
 		}
 	}
+	for _, k := range enumerate([]string{"raw"}, thorough) {
+		self(k)
+	}
+	enumerateSeq("raw", false, self) // (the reference functions keep no state: the sequences of the quick tier)
+	calProblems, calCases := seqCalibration()
+	if len(calProblems) > 0 {
+		inconclusive(fmt.Sprintf("the sequence grammar is mis-calibrated: %v", calProblems))
+	}
 
 	// --- the adapters
 	evals := 0
 	distinct := map[string]bool{}
+	distinctSeq := map[uint64]struct{}{}
+	seqEvals := map[int]int{}
+	var seqSamples []interface{}
 	perClass := map[string]int{}
 	var samples []interface{}
 	sampled := map[string]bool{}
 	agg := map[string]*aggregate{}
 	var aggOrder []string
-	for _, k := range enumerate(adapterNames, thorough) {
+	process := func(k kase) {
 		evals++
 		o := runCase(k)
 		if o.Internal != "" {
 			inconclusive(o.Internal)
 		}
-		if o.Reached && (k.expect() == "refuse" || o.Mutations > 0 || len(o.Findings) > 0) {
-			distinct[k.key()] = true
-			perClass[k.Adapter+"|"+k.Op+"|"+k.pairing()]++
-		}
-		sk := k.Op + "|" + k.pairing()
-		if !sampled[sk] && len(samples) < 12 && k.Adapter == "ProtoCloner" && (isNP(k.Src) || k.Src == "msg-full") {
-			sampled[sk] = true
-			samples = append(samples, map[string]interface{}{"case": k, "expected": k.expect(), "observed": o.Observed, "in_place_mutations": o.Mutations})
+		if len(k.Seq) > 0 {
+			seqEvals[len(k.Seq)]++
+			// distinct by the steps that had an effect: a modification kind that does not
+			// apply to the object makes the case coincide with the unmodified one
+			if o.Reached || len(o.Findings) > 0 {
+				h := hash64(k.Adapter + "|" + k.Src + "|" + k.SrcRep + o.EffKey)
+				if _, dup := distinctSeq[h]; !dup {
+					distinctSeq[h] = struct{}{}
+					perClass[fmt.Sprintf("%s|Seq|%d steps", k.Adapter, len(k.Seq))]++
+				}
+			}
+			last := k.Seq[len(k.Seq)-1]
+			sk := fmt.Sprintf("seq|%d|%s|%s|%s|%v", len(k.Seq), k.Adapter, last.Op, last.Dst, last.Src)
+			want := (len(k.Seq) == 2 && last.Mod == "map") || (len(k.Seq) == 3 && last.Mod == "deep" && k.Seq[1].Mod == "deep" && k.Seq[1].Src == 1)
+			if !sampled[sk] && len(seqSamples) < 10 && k.Adapter == "CodecCloner" && k.Src == seqPoolQuick[0] && k.SrcRep == "dyn" && last.Src > 0 && want {
+				sampled[sk] = true
+				seqSamples = append(seqSamples, map[string]interface{}{"case": k, "reads": describe(k), "observed": o.Observed, "in_place_mutations": o.Mutations})
+			}
+		} else {
+			if o.Reached && (k.expect() == "refuse" || o.Mutations > 0 || len(o.Findings) > 0) {
+				distinct[k.key()] = true
+				perClass[k.Adapter+"|"+k.Op+"|"+k.pairing()]++
+			}
+			sk := k.Op + "|" + k.pairing()
+			if !sampled[sk] && len(samples) < 12 && k.Adapter == "ProtoCloner" && (isNP(k.Src) || k.Src == "msg-full") {
+				sampled[sk] = true
+				samples = append(samples, map[string]interface{}{"case": k, "expected": k.expect(), "observed": o.Observed, "in_place_mutations": o.Mutations})
+			}
 		}
 		for _, f := range o.Findings {
-			fp := fingerprint(k, f.Clause)
+			fp := fingerprint(k, f)
 			a := agg[fp]
 			if a == nil {
 				a = &aggregate{first: k, what: f.What}
@@ -131,6 +180,13 @@ func main() {
 				a.telling = f.What
 			}
 		}
+	}
+	for _, k := range enumerate(adapterNames, thorough) {
+		process(k)
+	}
+	// operation sequences on one adapter object, after every isolated operation
+	for _, a := range adapterNames {
+		enumerateSeq(a, thorough, process)
 	}
 	for _, fp := range aggOrder {
 		a := agg[fp]
@@ -150,22 +206,43 @@ func main() {
 	}
 	os.Exit(rep.Finish("exploration", map[string]interface{}{
 		"evaluations":         evals,
-		"distinct_nontrivial": len(distinct),
+		"distinct_nontrivial": len(distinct) + len(distinctSeq),
 		"rule": "every (adapter, operation, source message, source representation, destination type / representation / previous content) of the grammar is run through the real adapter. " +
 			"Overlapping copies: for every adapter, a second copy of another message of the same type (4 generated/dynamic pairings) runs inside a callback of a wrapper message type placed as " +
 			"destination (its Reset) or source (its first ProtoReflect) of the first; when the first reports success both results must equal their sources. " +
 			"A case is non-trivial when the adapter operation was actually invoked and either a refusal was due (different type, non-proto pointer), or the copy went through the " +
-			"disjointness test with at least one in-place mutation applied, or (overlap cases) the outer copy succeeded and the inner copy really ran inside it, or a clause failed; distinct by all case parameters.",
-		"samples":             samples,
-		"exhaustive":          true,
-		"pool_messages":       len(pool),
-		"message_types":       len(typeOrder),
-		"adapters":            adapterNames,
-		"self_check_cases":    selfCases,
+			"disjointness test with at least one in-place mutation applied, or (overlap cases) the outer copy succeeded and the inner copy really ran inside it, or a clause failed; distinct by all case parameters. " +
+			"Operation sequences: for every adapter ONE adapter object performs 2 or 3 operations on a base object x0 (sequence pool, generated and dynamic form); each operation is Clone, " +
+			"Copy into an empty or a pre-populated destination (generated / dynamic), Copy into an object that already takes part in the sequence, or Copy into a destination of another message type (refusal due); " +
+			"the source of step 2 and 3 is any object that exists so far (x0 again, or the result / destination of an earlier step), after its owner did one of {nothing, set a field, clear a field, " +
+			"append to a repeated field, change and add a map entry, add an unknown field, mutate everything reachable in place}. 2 steps: all of it crossed, over the whole sequence pool of the tier. " +
+			"3 steps: both modifications in {nothing, everything in place}; quick: the first 3 messages of the pool, pre-populated destinations at the last step only; thorough: the whole pool, every operation at every step, " +
+			"and over the first 3 messages of the pool also every sequence in which exactly one of the two modifications is a single-kind one. " +
+			"Every step is judged by the oracle of the single operation against the source as it is at that moment, " +
+			"every other object of the sequence must keep its marshalled form across each modification and each operation that does not write it, and the last (source, result) pair goes through the two-way in-place mutation test. " +
+			"A failing sequence is reduced before it is reported: shortest failing prefix, then the failing step is repeated by a NEW adapter object on the same objects; if it fails there too the finding is reported in the class of the isolated operation, " +
+			"so a fingerprint with 'seq:' names something that takes a long-lived adapter: seq:src=<what the adapter did with the source object last: base (read it) | clone-result | copy-dest>[,modified (by its owner since)]:<representations>. " +
+			"A sequence counts as non-trivial when its last operation was reached (every step >= 2 then ran on an object the adapter had seen before) or a clause failed; distinct by adapter, base object and the steps, " +
+			"where a modification kind that changed nothing (no such field) is struck out, so that it coincides with the unmodified sequence.",
+		"samples":                      append(samples, seqSamples...),
+		"exhaustive":                   true,
+		"pool_messages":                len(pool),
+		"message_types":                len(typeOrder),
+		"adapters":                     adapterNames,
+		"self_check_cases":             selfCases,
+		"sequence_evaluations":         map[string]int{"2 steps": seqEvals[2], "3 steps": seqEvals[3]},
+		"sequence_distinct_nontrivial": len(distinctSeq),
+		"sequence_pool":                seqPoolNames(thorough),
+		"sequence_pool_3_steps":        map[string]interface{}{"quick": seqPoolNames(false)[:seqPool3Quick], "thorough_one_single_kind_modification": seqPoolNames(false)[:seqPool3Quick], "thorough_coarse_modifications": "whole sequence pool"},
+		"sequence_modifications":       allMods[1:],
+		"sequence_calibration": map[string]interface{}{"adapters_wrong_only_across_operations": faultyAdapters, "cases": calCases,
+			"result": "each passes every isolated operation of the quick grammar and is reported by the 2-step sequences"},
 		"nontrivial_by_class": classes,
 	}, []string{
 		"*dynamic.Message exposes no protoreflect view: its content is mutated through its public accessors (stored byte slices, nested messages and unknown-field records are handed out by reference; SetRepeatedField/PutMapField write into the stored slice/map)",
 		"equality of a dynamic message is judged on its deterministic wire form parsed into the generated type",
-		"the clone and copy functions given to CloneFunc/CopyFunc are the checker's own; they pass the same oracle on the whole grammar before the adapters are run (otherwise exit 2)",
+		"the clone and copy functions given to CloneFunc/CopyFunc are the checker's own; they pass the same oracle on the whole grammar, sequences included, before the adapters are run (otherwise exit 2)",
+		"sequences: the modification dimension is crossed completely with everything else for 2 steps only; for 3 steps it is swept (nothing / everything in place, plus one single-kind modification per sequence in the thorough tier over 3 messages); a pre-populated destination holds one other message of the type (its largest, or the type's dedicated filler); a refused step takes a generated destination of one other message type; the reference clone/copy functions (no state) run the sequences of the quick tier in both tiers",
+		"sequences: an object of the sequence that changes its marshalled form when the owner of ANOTHER object of the sequence modifies that one, or when an operation runs that neither reads nor writes it, is reported as shared mutable memory even when the two are not source and copy of one operation (two copies of one source, a copy of a copy)",
 	}))
 }
